@@ -2,6 +2,7 @@ import TracklibVerif.Lemmas.SimplifyGeom
 import TracklibVerif.Lemmas.SimplifyTrack
 import TracklibVerif.Lemmas.SimplifyVwOrd
 import TracklibVerif.Lemmas.SimplifyVwAll
+import TracklibVerif.Lemmas.SimplifyVwAny
 import Mathlib.Analysis.Real.Sqrt
 /-! # C16 — simplification keeps the end points, only drops fixes, and honours its tolerance
 
@@ -201,6 +202,106 @@ theorem simplify_dispatch (sqrt : α → α) (big tol : α) (T : Trk α) :
   unfold simplify
   rw [this]
 
+/-- T12 (Visvalingam with **no hypothesis on the areas** — infinite, NaN, mixed columns, every pass; closes the part of round 1's
+open statement that can hold): on every track, for every tolerance and every scalar type (the driver's IEEE `Float` model
+included), the result is a sub-sequence of the input observations in their original order, the **last** observation is
+kept, a track of two or more observations keeps at least two, and the `while` loop stops by itself within `len(track)`
+passes. (The entry of the last observation is NaN from the start and is never rewritten, so ARGMIN cannot designate it
+while more than two observations remain.) What can fail outside T6's hypothesis is only the **first** observation: T6'. -/
+theorem vw_any (big eps : α) (L : List (Fix α)) :
+    (visvalingam big eps L).Sublist L ∧
+    (visvalingam big eps L).getLast? = L.getLast? ∧
+    (2 ≤ L.length → 2 ≤ (visvalingam big eps L).length) ∧
+    vwStep big (eps * eps) (vwLoop big (eps * eps) L.length (vwInit L)) = none := by
+  cases hL : L with
+  | nil => simp [visvalingam, vwInit, vwLoop, vwStep]
+  | cons a l =>
+    rw [← hL]
+    have h1 : 1 ≤ L.length := by rw [hL]; simp
+    have hi := vwInit_lastNaN L h1
+    have hlen : (vwInit L).length = L.length := by
+      have := congrArg List.length (vwInit_map_fst L)
+      rwa [List.length_map] at this
+    obtain ⟨_, r2, r3, r4⟩ := vwLoop_any big (eps * eps) L.length (vwInit L) hi
+    rw [vwInit_map_fst] at r2 r3
+    refine ⟨r2, r3, fun h2 => ?_, vwLoop_stops_any big (eps * eps) L.length (vwInit L) hi (by omega)⟩
+    unfold visvalingam
+    rw [List.length_map]
+    exact r4 (by omega)
+
+/-- T12 on the `Track` object (well-formed feature table without `'@aire'`, non-empty track, **any** areas, any tolerance): the
+call succeeds, the observations returned (feature rows included) are a sub-sequence of the input's, the last observation is
+kept, and a track of two or more observations keeps at least two. -/
+theorem vw_track_any (big eps : α) (T : Trk α) (hf : FreshTable T) (hne : T.pts ≠ []) :
+    ∃ O, vwTrk big eps T = .ok O ∧ O.pts.Sublist T.pts ∧ O.pts.getLast? = T.pts.getLast? ∧
+      (2 ≤ T.pts.length → 2 ≤ O.pts.length) := by
+  obtain ⟨O, h, hfx, hs, _, _⟩ := vwTrk_spec big eps T hf hne
+  refine ⟨O, h, hs, vwTrk_last_any big eps T O hf hne h, fun h2 => ?_⟩
+  have := (vw_any big eps (fixes T.pts)).2.2.1 (by simpa [fixes] using h2)
+  rw [← hfx] at this
+  simpa [fixes] using this
+
+/-! #### attributes of the `Track` that the readers set (`no_data_value`), and `Network.simplify` -/
+
+/-- `simplify()` never reads `track.no_data_value`: on a track that carries the attribute (a track read with
+`TrackReader.readFromFile`, whose blank / `NA` lines are fixes placed at that value) the observations returned are exactly
+those returned for the same track without the attribute — the placeholder fixes are observations like the others, none is
+left out before simplifying —; the result's own attribute is `None` after Douglas–Peucker (a new `Track`) and the input's
+after Visvalingam (the copy). Any scalar type. -/
+theorem simplify_nodata (sqrt : α → α) (big tol : α) (T : TrkN α) (mode : Int) :
+    (∀ O, simplifyN sqrt big T tol mode = .ok O → simplify sqrt big T.trk tol mode = .ok O.trk) ∧
+    (∀ O, simplify sqrt big T.trk tol mode = .ok O → ∃ O', simplifyN sqrt big T tol mode = .ok O' ∧ O'.trk = O) ∧
+    (∀ e, simplifyN sqrt big T tol mode = .error e ↔ simplify sqrt big T.trk tol mode = .error e) ∧
+    (∀ O, simplifyN sqrt big T tol 1 = .ok O → O.nodata = none) ∧
+    (∀ O, simplifyN sqrt big T tol 2 = .ok O → O.nodata = T.nodata) := by
+  refine ⟨fun O h => ?_, fun O h => ?_, fun e => ?_, fun O h => ?_, fun O h => ?_⟩
+  · unfold simplifyN at h
+    cases hs : simplify sqrt big T.trk tol mode with
+    | error e => rw [hs] at h; cases h
+    | ok O1 => rw [hs] at h; cases h; rfl
+  · unfold simplifyN; rw [h]; exact ⟨_, rfl, rfl⟩
+  · unfold simplifyN
+    cases hs : simplify sqrt big T.trk tol mode with
+    | error e1 => simp
+    | ok O1 => simp
+  · unfold simplifyN at h
+    cases hs : simplify sqrt big T.trk tol 1 with
+    | error e => rw [hs] at h; cases h
+    | ok O1 =>
+      rw [hs] at h; cases h
+      have : dispatch 1 ≠ Algo.visvalingam := by decide
+      simp [this]
+  · unfold simplifyN at h
+    cases hs : simplify sqrt big T.trk tol 2 with
+    | error e => rw [hs] at h; cases h
+    | ok O1 =>
+      rw [hs] at h; cases h
+      have : dispatch 2 = Algo.visvalingam := by decide
+      simp [this]
+
+/-- `Network.simplify(tolerance, mode)` is `simplify` on every edge geometry, in the edges' order: when it succeeds the
+i-th geometry of the result is what `simplify` returns for the i-th geometry. Any scalar type. -/
+theorem net_simplify_each (sqrt : α → α) (big tol : α) (mode : Int) (G O : List (TrkN α))
+    (h : netSimplify sqrt big G tol mode = .ok O) :
+    List.Forall₂ (fun g o => simplifyN sqrt big g tol mode = .ok o) G O := by
+  unfold netSimplify at h
+  induction G generalizing O with
+  | nil =>
+    simp only [List.mapM_nil, pure, Except.pure, Except.ok.injEq] at h
+    subst h; exact List.Forall₂.nil
+  | cons g G ih =>
+    rw [List.mapM_cons] at h
+    cases hg : simplifyN sqrt big g tol mode with
+    | error e => rw [hg] at h; cases h
+    | ok o =>
+      rw [hg] at h
+      cases hr : G.mapM (fun g => simplifyN sqrt big g tol mode) with
+      | error e => rw [hr] at h; cases h
+      | ok os =>
+        rw [hr] at h
+        cases h
+        exact List.Forall₂.cons hg (ih os hr)
+
 /-- a one-fix track is returned unchanged by both algorithms -/
 theorem single_fix (sqrt : α → α) (big eps : α) (p : Fix α) :
     douglasPeucker sqrt eps [p] = some [p] ∧ visvalingam big eps [p] = [p] := by
@@ -309,6 +410,24 @@ theorem dp_track_correct (sqrt : α → α) (hs : SqrtOK sqrt) (eps : α) (heps 
     refine ⟨O, rfl, a, b, c, fun p hpm => ?_⟩
     rw [hp]
     exact dp_tolerance sqrt hs eps (fixes T.pts) out h (by simpa [fixes] using h2) p.fix (List.mem_map.mpr ⟨p, hpm, rfl⟩)
+
+/-- the statement of C16 for Douglas–Peucker **through `simplify()` on a track made by a reader** (any `no_data_value`, any
+number of placeholder fixes anywhere — first and last included): a result exists, the observations returned are a sub-sequence
+of **all** the input's observations with both ends, and **every** input observation, placeholder or not, is within `eps` of
+the returned polyline. -/
+theorem simplify_nodata_dp_correct (sqrt : α → α) (hs : SqrtOK sqrt) (big eps : α) (heps : 0 < eps) (T : TrkN α)
+    (h2 : 2 ≤ T.trk.pts.length) :
+    ∃ O, simplifyN sqrt big T eps 1 = .ok O ∧ O.nodata = none ∧ O.trk.pts.Sublist T.trk.pts ∧
+      O.trk.pts.head? = T.trk.pts.head? ∧ O.trk.pts.getLast? = T.trk.pts.getLast? ∧
+      ∀ p ∈ T.trk.pts, ∃ a b, [a, b] <:+: fixes O.trk.pts ∧
+        ∃ t, 0 ≤ t ∧ t ≤ 1 ∧ q2 p.fix.x p.fix.y a.x a.y b.x b.y t ≤ eps * eps := by
+  obtain ⟨O, h, a, b, c, d⟩ := dp_track_correct sqrt hs eps heps T.trk h2
+  have hs1 : simplify sqrt big T.trk eps 1 = .ok O := by
+    rw [(simplify_dispatch sqrt big eps T.trk).1, h]
+  obtain ⟨O', e1, e2⟩ := (simplify_nodata sqrt big eps T 1).2.1 O hs1
+  refine ⟨O', e1, (simplify_nodata sqrt big eps T 1).2.2.2.1 O' e1, ?_⟩
+  rw [e2]
+  exact ⟨a, b, c, d⟩
 
 end orderedField
 
